@@ -1,9 +1,9 @@
 #!/bin/bash
 # benigncheck.sh <PROP> <N> "<checks to run>"  : apply a behaviour-preserving refactoring in its scratch worktree and run checks; all must exit 0.
 P=$1; N=$2; CHECKS=$3
-WT=/tmp/wt/$P; OUT=/tmp/seeded_out3/$P
+WT=/tmp/wt/$P; OUT=${BENIGNOUT:-/tmp/seeded_out3}/$P
 export GOFLAGS=-mod=mod GOPROXY=off GOSUMDB=off
-cd $WT && git checkout -q -- . && git clean -fdq && git apply $OUT/patch$N.diff || { echo "APPLY-FAILED $P $N"; exit 9; }
+cd $WT && git checkout -q -- . && git clean -fdq && git checkout -q --detach $(git -C /repo rev-parse HEAD) && git apply $OUT/patch$N.diff || { echo "APPLY-FAILED $P $N"; exit 9; }
 go build ./... && go build -tags verif ./... || { echo "BUILD-FAILED"; git checkout -q -- .; exit 9; }
 for Q in $CHECKS; do
   ( cd /verif && VERIF_REPO=$WT VERIF_SECS_PER_WORKER=${SECS:-12} ./check $Q quick > $OUT/benign$N.$Q.log 2>&1; rc=$?; echo "$P refactor $N -> check $Q exit=$rc $(grep -h '^violation:\|^INCONCLUSIVE' $OUT/benign$N.$Q.log | head -2 | cut -c1-300)" )
